@@ -123,6 +123,15 @@ Definition era_day_ok (r : Z) : bool :=
   (days_from_civil y m d =? r) && (1 <=? y) && (y <=? 400) && (1 <=? m) && (m <=? 12) && (1 <=? d) && (d <=? days_in_month y m)
   && ((145731 <=? r) || (y <=? 399)).      (* the last 366 days of the era are its year 400 *)
 
+(* the other direction, over every real date of the era's 400 years *)
+Definition era_date_ok (y m d : Z) : bool :=
+  negb ((1 <=? d) && (d <=? days_in_month y m)) ||
+  (let n := days_from_civil y m d in
+   (0 <=? n) && (n <? 146097) &&
+   (let '(y', m', d') := civil_era n in (y' =? y) && (m' =? m) && (d' =? d))).
+Definition era_dates_ok : bool :=
+  range_all 400 (fun y => range_all 12 (fun m => range_all 31 (fun d => era_date_ok y m d) 1) 1) 1.
+
 Definition valid_civil (y m d : Z) : bool :=
   (1 <=? y) && (y <=? 9999) && (1 <=? m) && (m <=? 12) && (1 <=? d) && (d <=? days_in_month y m).
 Definition valid_clock (h mi s us : Z) : bool :=
